@@ -24,10 +24,19 @@ ALIAS_TEXTS = [
 ]
 
 
+# attribute groups that share attributes, some spelled non-canonically (`alignstack=8`, escaped strings): merged and translated
+# group by group in map order
+ATTR_TEXTS = [
+    'declare void @f() #0\n\ndeclare void @g() #1\n\nattributes #0 = { nounwind alignstack=8 "\\61" }\nattributes #1 = { alignstack=8 readnone "a" }\n',
+    'declare void @f() #0\n\ndeclare void @g() #1\n\ndeclare void @h() #2\n\nattributes #0 = { "k"="v" nounwind }\nattributes #1 = { "\\6B"="v" readnone }\nattributes #2 = { "k"="\\76" }\n',
+    'declare void @f() #3\n\ndeclare void @g() #7\n\nattributes #3 = { align=8 "x" }\nattributes #7 = { "\\78" align=8 }\nattributes #3 = { "x" noinline }\n',
+]
+
+
 def gen(tier, rng, harness=None):
     n = 60 if tier == "quick" else 2500
     lines = []
-    for t in modprops.corpus_texts() + ALIAS_TEXTS:
+    for t in modprops.corpus_texts() + ALIAS_TEXTS + ATTR_TEXTS:
         lines.append("!mod.det - %s" % hx(t))
     # earlier parse/print activity must not matter: every module against polluters drawn from the catalogue (incl. named non-struct types),
     # the corpus and other generated modules
@@ -44,6 +53,9 @@ def gen(tier, rng, harness=None):
         lines.append("mod.outcome %s %s" % (hx(sk), hx(text)))
         lines.append("mod.lists %s %s" % (hx(sk), hx(text)))
         lines.append("!mod.det %s %s" % (hx(sk), hx(text)))
+        # non-canonical spellings of the same module (escaped / split / repeated attribute groups, comments, hex literals ...)
+        from . import pC02
+        lines.append("!mod.det %s %s" % (hx(sk), hx(pC02.respell(rng, text))))
         fs = modgen.faults(rng, text, sk)
         if fs:
             kind, exp, ft, fsk = rng.choice(fs)
